@@ -430,6 +430,70 @@ func c10MapAndHandler(id string, depth, subscribers, hcap, values int, seed int6
 				c.Violationf("resubscribe-copy", rep, "Subscribe / Unsubscribe / Subscribe(copy) on the same and on another publisher: the callback received %v, want [1 3 4 6]", g1)
 			}
 		}
+		// the ORDER of Subscribe and SubscribeOn does not matter: every delivery of a publisher that has a handler happens on
+		// it, also for subscriptions made before the handler was set (plain and derived publishers)
+		{
+			h2 := fpgo.Handler.New()
+			hg2 := handlerGoid(h2)
+			var mu sync.Mutex
+			type dl struct {
+				who  string
+				v    int
+				goid int64
+			}
+			var got []dl
+			note := func(who string) func(int) {
+				return func(v int) { mu.Lock(); got = append(got, dl{who, v, core.Goid()}); mu.Unlock() }
+			}
+			pp := fpgo.PublisherNewGenerics[int]()
+			pp.Subscribe(fpgo.Subscription[int]{OnNext: note("early")})
+			pp.SubscribeOn(h2)
+			pp.Subscribe(fpgo.Subscription[int]{OnNext: note("late")})
+			der := pp.Map(func(v int) int { return v + 500 })
+			der.Subscribe(fpgo.Subscription[int]{OnNext: note("derived-early")})
+			h3 := fpgo.Handler.New() // (another handler: the derived publisher publishes from h2's goroutine)
+			hg3 := handlerGoid(h3)
+			der.SubscribeOn(h3)
+			pp.Publish(1)
+			handlerGoid(h2)
+			handlerGoid(h3)
+			mu.Lock()
+			cnt := map[string]int{}
+			for _, d := range got {
+				cnt[d.who]++
+				wantG := hg2
+				if d.who == "derived-early" {
+					wantG = hg3
+				}
+				if d.goid != wantG {
+					c.Violationf("subscribeOn:wrong-goroutine", rep, "a subscription made %s SubscribeOn(h) was delivered on goroutine %d, h's goroutine is %d (deliveries: %v)", map[bool]string{true: "BEFORE", false: "after"}[d.who != "late"], d.goid, wantG, got)
+					break
+				}
+			}
+			if cnt["early"] != 1 || cnt["late"] != 1 || cnt["derived-early"] != 1 {
+				c.Violationf("subscribeOn:not-exactly-once", rep, "Subscribe / SubscribeOn(h) / Subscribe (+ a derived publisher configured the same way), Publish(1): deliveries %v, want one each", got)
+			}
+			mu.Unlock()
+			h2.Close()
+			h3.Close()
+		}
+		// Unsubscribe(s) on a publisher that s is not registered with is a no-op for everybody (another publisher, the
+		// origin of a Map chain)
+		{
+			pa, pb := fpgo.PublisherNewGenerics[int](), fpgo.PublisherNewGenerics[int]()
+			var ga, gd []int
+			sa := pa.Subscribe(fpgo.Subscription[int]{OnNext: func(v int) { ga = append(ga, v) }})
+			pb.Unsubscribe(sa)
+			dd := pa.Map(func(v int) int { return v * 2 })
+			sd := dd.Subscribe(fpgo.Subscription[int]{OnNext: func(v int) { gd = append(gd, v) }})
+			pa.Unsubscribe(sd) // registered with dd, not with pa
+			pb.Unsubscribe(sd)
+			pa.Publish(4)
+			pa.Publish(5)
+			if !eqSeq(ga, []int{4, 5}) || !eqSeq(gd, []int{8, 10}) {
+				c.Violationf("unsubscribe-on-foreign-publisher", rep, "Unsubscribe(s) was called on publishers s is NOT registered with (another publisher, the origin of its Map chain); the real registrations then received %v (want [4 5]) and %v (want [8 10])", ga, gd)
+			}
+		}
 		// SubscribeOn(h) with deliveries still pending on a busy handler when the subscription list changes: what counts is
 		// the registration at the time of the Publish call, not at the time the handler gets round to it
 		{
@@ -573,7 +637,7 @@ func init() {
 		Meta: func(c *core.Ctx) core.Meta {
 			return core.Meta{
 				Level:       "exploration",
-				Rule:        "(a) every sequential re-entrant history with k <= 3 (thorough 4) subscribers whose callbacks are scripted from {nothing, unsubscribe self, unsubscribe j, subscribe a new one, publish on a derived publisher} x 1..3 publishes: per (publish, subscription) the count must be 1 if registered before and not touched during, 0 if unsubscribed before, <= 1 always, subscription order among the untouched; (b) 1..4 concurrent publishers x 1..4 subscribe/unsubscribe churners with call/return stamps (registered throughout => exactly 1, Unsubscribe returned before Publish called => 0, never twice, stable subscriptions in order), PRNG yields or a publisher parked at the snapshot / before a delivery while a Subscribe+Unsubscribe pair completes; (c) Map chains of depth 1..3 with two subscribers per level, values published on the root and directly on every derived level, subscription churn on derived publishers, and Subscribe / Unsubscribe / Subscribe(copy of the subscription value) on the same and another publisher; (d) SubscribeOn(h) with 1..4 subscribers and handler capacity 0..2: exactly once each, on h's goroutine, and with deliveries pending on a busy handler while subscriptions are removed/added (registration at the time of the Publish call decides); (b)-(d) repeated under -race (deciding for publisher.go frames). distinct_nontrivial = enumerated sequential histories + distinct concurrent scenarios / hook-trace signatures",
+				Rule:        "(a) every sequential re-entrant history with k <= 3 (thorough 4) subscribers whose callbacks are scripted from {nothing, unsubscribe self, unsubscribe j, subscribe a new one, publish on a derived publisher} x 1..3 publishes: per (publish, subscription) the count must be 1 if registered before and not touched during, 0 if unsubscribed before, <= 1 always, subscription order among the untouched; (b) 1..4 concurrent publishers x 1..4 subscribe/unsubscribe churners with call/return stamps (registered throughout => exactly 1, Unsubscribe returned before Publish called => 0, never twice, stable subscriptions in order), PRNG yields or a publisher parked at the snapshot / before a delivery while a Subscribe+Unsubscribe pair completes; (c) Map chains of depth 1..3 with two subscribers per level, values published on the root and directly on every derived level, subscription churn on derived publishers, and Subscribe / Unsubscribe / Subscribe(copy of the subscription value) on the same and another publisher; (d) SubscribeOn(h) with 1..4 subscribers and handler capacity 0..2: exactly once each, on h's goroutine, and with deliveries pending on a busy handler while subscriptions are removed/added (registration at the time of the Publish call decides), with Subscribe before and after SubscribeOn (plain and derived publishers), and Unsubscribe on publishers the subscription is not registered with; (b)-(d) repeated under -race (deciding for publisher.go frames). distinct_nontrivial = enumerated sequential histories + distinct concurrent scenarios / hook-trace signatures",
 				Assumptions: []string{"a subscription added or removed during a Publish may or may not see that value", "SubscribeOn uses a handler other than the publishing goroutine's own"},
 				Exhaustive:  true,
 			}
